@@ -8,8 +8,8 @@ From AV Require Import Lib.Base.
 Definition redirect_statuses : list N := [301; 302; 303; 307; 308].
 Definition follow_redirect (status : N) (allow : bool) : bool := ((memN status [301; 302; 303; 307; 308]) && allow).
 
-(* `max_redirects and redirects >= max_redirects` (evaluated after `redirects += 1`) *)
-Definition too_many_redirects (redirects max_redirects : Z) : bool := (((negb (max_redirects =? 0)) && (max_redirects <=? redirects)))%Z.
+(* `redirects >= max_redirects` (evaluated after `redirects += 1`) *)
+Definition too_many_redirects (redirects max_redirects : Z) : bool := ((max_redirects <=? redirects))%Z.
 
 (* the test that switches the method to GET, drops the body and a caller Content-Length *)
 Definition switch_to_get (status : N) (is_head is_post is_get : bool) : bool := (((status =? 303) && (negb is_head)) || ((memN status [301; 302]) && is_post)).
